@@ -155,6 +155,10 @@ def run(w: World, rep: Report):
         fi = w.handler_for(op)
         ok, why = verify_form(w, fi, base)
         rep.check('C16.R3', f'functions.{fi.name}|base-then-verify', ok, line=fi.node.lineno, file=REL, why=why)
+    from .report import depend
+    depend(rep, w, 'rules_c19', ('C19.R3', 'C19.R4'), 'C16.TD19',
+           'the thresholds a run uses are those configured for that run: no run writes into a shared default or into the '
+           'embedder\'s dictionaries, so earlier runs cannot pin stale thresholds (C19.R3/R4 re-evaluated)', floor=20)
     rep.explanation = (
         'The property touches its values only through comparisons, so the set of orderings is finite: the '
         'if/elif/else formula of each instruction is extracted from the CFG (locals substituted by their '
